@@ -576,6 +576,9 @@ class Nullness:
             cv = self._const(v, n.frame)
             if cv is not None:
                 return self._set(st, '$ret', cv)
+            if isinstance(v, _ast.Name) and self._module_object(v, n.frame):
+                # a canned object of the module (bad_sequence = Reply(...))
+                return self._set(st, '$ret', 'obj')
             if isinstance(v, _ast.Tuple) and isinstance(
                     self.assign_of_call[id(n.frame.call)][0], list):
                 return self._set(st, '$ret', ('t', tuple(
@@ -828,6 +831,32 @@ def _nullness_eval(self, t, frame, st):
     return None
 
 
+def _nullness_module_object(self, v, frame):
+    """the name denotes an object made once at module level (NAME =
+    SomeClass(...)), here or in the module it is imported from, and is not
+    a local / parameter of the function"""
+    import ast as _ast
+    from ..model import walk_own as _wo
+    if self.e is None:
+        return False
+    fn = frame.ctx.func
+    if v.id in fn.params or any(
+            isinstance(x, _ast.Name) and x.id == v.id and
+            isinstance(x.ctx, (_ast.Store, _ast.Del)) for x in _wo(fn.node)):
+        return False
+    m = fn.module
+    val = m.globals.get(v.id)
+    if val is None and v.id in m.imports:
+        q = m.imports[v.id]
+        src, _, nm = q.rpartition('.')
+        sm = self.e.p.modules.get(src)
+        val = sm.globals.get(nm) if sm is not None else None
+    return isinstance(val, _ast.Call) and isinstance(
+        val.func, (_ast.Name, _ast.Attribute)) and \
+        _ast.unparse(val.func).rpartition('.')[2][:1].isupper()
+
+
+Nullness._module_object = _nullness_module_object
 Nullness._const = _nullness_const
 Nullness._value = _nullness_value
 Nullness._eval = _nullness_eval
